@@ -73,20 +73,25 @@ the underlying Gamma, i.e. the *scale* of the inverse-gamma law) -/
 section invgamma
 variable (d : InverseGamma ℝ)
 
-theorem inverseGamma_cdf_eq_gamma_sf [SF ℝ] (x : ℝ) (hx : 0 < x) :
+/-- `hr`: since a21bb2d `Gamma.sf` returns `1.0` when `x * rate == 0.0` instead of calling
+`gamma_ur`; `InverseGamma::new` enforces `0 < rate`, so the guard is vacuous for constructed
+objects (a zero rate would need the extra premise `gamma_ur a 0 = 1`). -/
+theorem inverseGamma_cdf_eq_gamma_sf [SF ℝ] (hr : d.f_rate ≠ 0) (x : ℝ) (hx : 0 < x) :
     InverseGamma.cdf d x = Gamma.sf ⟨d.f_shape, d.f_rate⟩ (1 / x) := by
   unfold InverseGamma.cdf Gamma.sf
   rfun_norm; lit_norm
   have h1 : ¬ (1 / x ≤ 0) := not_le.mpr (by positivity)
-  simp only [not_le.mpr hx, h1, if_false, Bool.false_eq_true, and_false]
+  have h3 : 1 / x * d.f_rate ≠ 0 := mul_ne_zero (by positivity) hr
+  simp only [not_le.mpr hx, h1, h3, if_false, Bool.false_eq_true, and_false]
   congr 1; ring
 
-theorem inverseGamma_sf_eq_gamma_cdf [SF ℝ] (x : ℝ) (hx : 0 < x) :
+theorem inverseGamma_sf_eq_gamma_cdf [SF ℝ] (hr : d.f_rate ≠ 0) (x : ℝ) (hx : 0 < x) :
     InverseGamma.sf d x = Gamma.cdf ⟨d.f_shape, d.f_rate⟩ (1 / x) := by
   unfold InverseGamma.sf Gamma.cdf
   rfun_norm; lit_norm
   have h1 : ¬ (1 / x ≤ 0) := not_le.mpr (by positivity)
-  simp only [not_le.mpr hx, h1, if_false, Bool.false_eq_true, and_false]
+  have h3 : 1 / x * d.f_rate ≠ 0 := mul_ne_zero (by positivity) hr
+  simp only [not_le.mpr hx, h1, h3, if_false, Bool.false_eq_true, and_false]
   congr 1; ring
 
 /-- density with the Jacobian `1/x²`, on the branch `shape ≤ 160` where `Gamma.pdf` uses the
@@ -128,7 +133,8 @@ theorem chi_cdf_eq_chiSquared [SF ℝ] (c : Chi) (x : ℝ) (hx : 0 < x) :
   rfun_norm; lit_norm
   have h1 : ¬ (x * x ≤ 0) := not_le.mpr (by positivity)
   have h2 : ¬ (x = (RFun.inf : ℝ)) := hx.ne'
-  simp only [not_le.mpr hx, h1, h2, if_false, Bool.false_eq_true, and_false]
+  have h3 : x * x * (1 / 2) ≠ 0 := by positivity
+  simp only [not_le.mpr hx, h1, h2, h3, if_false, Bool.false_eq_true, and_false]
   congr 1; ring
 
 theorem chi_sf_eq_chiSquared [SF ℝ] (c : Chi) (x : ℝ) (hx : 0 < x) :
@@ -137,7 +143,8 @@ theorem chi_sf_eq_chiSquared [SF ℝ] (c : Chi) (x : ℝ) (hx : 0 < x) :
   rfun_norm; lit_norm
   have h1 : ¬ (x * x ≤ 0) := not_le.mpr (by positivity)
   have h2 : ¬ (x = (RFun.inf : ℝ)) := hx.ne'
-  simp only [not_le.mpr hx, h1, h2, if_false, Bool.false_eq_true, and_false]
+  have h3 : x * x * (1 / 2) ≠ 0 := by positivity
+  simp only [not_le.mpr hx, h1, h2, h3, if_false, Bool.false_eq_true, and_false]
   congr 1; ring
 
 end chi
